@@ -152,11 +152,17 @@ def gen_all(ctx):
     scs = corpus_scenarios("C06")
     for _ in range(ctx.scale(24, 200)):
         scs.append(S.gen_scenario(rng, "periodogram_csd", nmax=32 if q else 96, max_ch=5 if q else 6))
-    for _ in range(ctx.scale(14, 120)):
+    for _ in range(ctx.scale(10, 120)):
         scs.append(S.gen_scenario(rng, "multi_taper_csd", nmax=20 if q else 48,
                                   max_ch=rng.choice([2, 3, 3, 4]) if q else rng.choice([3, 4, 5, 6])))
     for _ in range(ctx.scale(16, 120)):
         scs.append(S.gen_welch(rng))
+    # the BW keyword with NFFT in {None, N, > N} (the diagonal is compared with multi_taper_psd called with
+    # identical keywords); adaptive=True with 1-2 usable tapers
+    for _ in range(ctx.scale(5, 30)):
+        scs.append(S.force_bw_nfft(rng, S.gen_scenario(rng, "multi_taper_csd", nmax=16 if q else 32, max_ch=2 if q else 4)))
+    for _ in range(ctx.scale(2, 12)):
+        scs.append(S.force_few_tapers(rng, S.gen_scenario(rng, "multi_taper_csd", nmax=16 if q else 32, max_ch=2 if q else 4)))
     # Fortran-ordered / strided / transposed-view inputs with two or more leading dimensions > 1
     for _ in range(ctx.scale(6, 40)):
         est = rng.choice(["multi_taper_csd", "multi_taper_csd", "periodogram_csd"])
